@@ -51,7 +51,8 @@ def gen_workload(tape, *, max_funcs=5, max_size=3, allow_gen=True, allow_tuple=T
     def new_root_scalar():
         name = f"s{counters['s']}"
         counters["s"] += 1
-        inputs[name] = {"axes": [], "kind": "scalar", "base": 0}
+        inputs[name] = {"axes": [], "kind": "scalar", "base": 0,
+                        "value": tape.pick(["str", "str", "str", "zero", "empty", "none", "false", "tuple"], "scalar-value")}
         scalars.append(name)
         return name
 
@@ -172,7 +173,7 @@ def build_inputs(w):
     out = {}
     for name, d in w["inputs"].items():
         if d["kind"] == "scalar":
-            out[name] = f"{name}-val"
+            out[name] = {"zero": 0, "empty": "", "none": None, "false": False, "tuple": ()}.get(d.get("value", "str"), f"{name}-val")
         elif d["kind"] == "default":
             if d.get("provided"):
                 out[name] = f"{name}-given"
